@@ -308,11 +308,14 @@ func (m *Machine) parseDecimal(b []Val) (Val, bool) {
 	} else if m.decide(mkCmp("eq", first, mkConst('+', 8, false))) {
 		b = b[1:]
 	}
-	if len(b) == 0 || len(b) > 18 {
-		if len(b) > 18 {
-			inconclusive("decimal text longer than 18 digits in strconv model")
+	if len(b) == 0 || len(b) > 19 {
+		if len(b) > 19 {
+			inconclusive("decimal text longer than 19 digits in strconv model")
 		}
 		return int64(0), false
+	}
+	if len(b) == 19 && m.ex.cfg.Mode != modeLIA {
+		inconclusive("19-digit decimal text needs the integer encoding")
 	}
 	ok := tTrue
 	for _, x := range b {
@@ -326,6 +329,12 @@ func (m *Machine) parseDecimal(b []Val) (Val, bool) {
 	for _, x := range b {
 		d := mkArith("sub", mkConv(byteTerm(x), 64, true), mkConst('0', 64, true))
 		acc = mkArith("add", mkArith("mul", acc, mkConst(10, 64, true)), d)
+	}
+	if len(b) == 19 {
+		// value may exceed the int64 range: strconv reports a range error then
+		if !m.decide(mkCmp("le", acc, mkConst(1<<63-1, 64, true))) {
+			return int64(0), false
+		}
 	}
 	if neg {
 		acc = mkArith("sub", mkConst(0, 64, true), acc)
@@ -708,6 +717,21 @@ func init() {
 		f := m.ex.pkgFunc("errors", "New")
 		return m.callSSA(fr, token.NoPos, f, []Val{s}, nil)
 	}
+	stubs["fmt.Fprintf"] = func(m *Machine, fr *frame, fn *ssa.Function, a []Val) Val {
+		w := a[0].(Iface)
+		if w.T == nil {
+			m.rtPanic(fr, "nil io.Writer in Fprintf")
+		}
+		text := m.sprintf(fr, cStr(m, a[1], "Fprintf format"), variadic(a[2]))
+		wf := m.lookupMethod(w.T, "Write")
+		if wf == nil {
+			inconclusive("Fprintf: writer without Write method")
+		}
+		return m.callSSA(fr, token.NoPos, wf, []Val{w.V, Slice(append([]Val{}, strBytes(text)...))}, nil)
+	}
+	stubs["fmt.Fscanf"] = func(m *Machine, fr *frame, fn *ssa.Function, a []Val) Val {
+		return m.fscanf(fr, a[0].(Iface), cStr(m, a[1], "Fscanf format"), variadic(a[2]))
+	}
 	stubs["fmt.Sprint"] = func(m *Machine, fr *frame, fn *ssa.Function, a []Val) Val {
 		args := variadic(a[0])
 		return m.sprintf(fr, strings.Repeat("%v", len(args)), args)
@@ -730,7 +754,26 @@ func init() {
 	stubs["strings.ToUpper"] = s1(strings.ToUpper)
 	stubs["strings.ToLower"] = s1(strings.ToLower)
 	stubs["strings.Trim"] = func(m *Machine, fr *frame, fn *ssa.Function, a []Val) Val {
-		return strings.Trim(cStr(m, a[0], "Trim"), cStr(m, a[1], "Trim"))
+		cut := cStr(m, a[1], "Trim cutset")
+		if s, ok := isConcreteStr(a[0]); ok {
+			return strings.Trim(s, cut)
+		}
+		b := strBytes(a[0])
+		in := func(x Val) bool {
+			t := byteTerm(x)
+			c := tFalse
+			for i := 0; i < len(cut); i++ {
+				c = mkOr(c, mkCmp("eq", t, mkConst(int64(cut[i]), 8, false)))
+			}
+			return m.decide(c)
+		}
+		for len(b) > 0 && in(b[0]) {
+			b = b[1:]
+		}
+		for len(b) > 0 && in(b[len(b)-1]) {
+			b = b[:len(b)-1]
+		}
+		return mkStr(append([]Val{}, b...))
 	}
 	stubs["strings.Split"] = func(m *Machine, fr *frame, fn *ssa.Function, a []Val) Val {
 		return strSliceVal(strings.Split(cStr(m, a[0], "Split"), cStr(m, a[1], "Split")))
@@ -866,4 +909,132 @@ func (m *Machine) parseFloatSym(fr *frame, b []Val) Val {
 		return bad()
 	}
 	return Tuple{float64(0), Iface{}}
+}
+
+// fscanf models fmt.Fscanf for formats made of %d verbs, literal separators and a trailing newline
+// (the index line format "%d,%d,%d\n" of the file store). Bytes are pulled one at a time through the
+// reader's Read method, as fmt does for a reader without ReadRune.
+func (m *Machine) fscanf(fr *frame, r Iface, format string, ptrs []Val) Val {
+	rf := m.lookupMethod(r.T, "Read")
+	if rf == nil {
+		inconclusive("Fscanf: reader without Read method")
+	}
+	eof := false
+	var pending Val // one byte of lookahead within this call
+	readByte := func() (Val, bool) {
+		if pending != nil {
+			b := pending
+			pending = nil
+			return b, true
+		}
+		if eof {
+			return nil, false
+		}
+		buf := make(Slice, 1)
+		buf[0] = int64(0)
+		res := m.callSSA(fr, token.NoPos, rf, []Val{r.V, buf}, nil).(Tuple)
+		if n, _ := res[0].(int64); n == 1 {
+			return buf[0], true
+		}
+		eof = true
+		return nil, false
+	}
+	errV := func(msg string) Val { return m.errVal(fr, msg) }
+	ioEOF := *m.global(m.ex.pkgGlobal("io", "EOF"))
+	ioUnexp := *m.global(m.ex.pkgGlobal("io", "ErrUnexpectedEOF"))
+	isB := func(b Val, c byte) bool { return m.decide(mkCmp("eq", byteTerm(b), mkConst(int64(c), 8, false))) }
+	isDigit := func(b Val) bool {
+		t := byteTerm(b)
+		return m.decide(mkAnd(mkCmp("le", mkConst('0', 8, false), t), mkCmp("le", t, mkConst('9', 8, false))))
+	}
+	count := int64(0)
+	argi := 0
+	first := true
+	_ = first
+	for i := 0; i < len(format); i++ {
+		c := format[i]
+		if c == '%' && i+1 < len(format) && format[i+1] == 'd' {
+			i++
+			// skip leading blanks (not newlines)
+			b, ok := readByte()
+			for ok && (isB(b, ' ') || isB(b, '\t')) {
+				b, ok = readByte()
+			}
+			if !ok {
+				// input exhausted where a verb starts: fmt reports io.EOF (validated against the real fmt)
+				return Tuple{count, ioEOF}
+			}
+			first = false
+			neg := false
+			if isB(b, '-') {
+				neg = true
+				b, ok = readByte()
+			} else if isB(b, '+') {
+				b, ok = readByte()
+			}
+			if !ok {
+				return Tuple{count, ioUnexp}
+			}
+			if !isDigit(b) {
+				return Tuple{count, errV("expected integer")}
+			}
+			acc := mkConst(0, 64, true)
+			nd := 0
+			for ok && isDigit(b) {
+				acc = mkArith("add", mkArith("mul", acc, mkConst(10, 64, true)), mkArith("sub", mkConv(byteTerm(b), 64, true), mkConst('0', 64, true)))
+				nd++
+				if nd > 18 {
+					inconclusive("Fscanf model: more than 18 digits")
+				}
+				b, ok = readByte()
+			}
+			if ok {
+				pending = b
+			}
+			if neg {
+				acc = mkArith("sub", mkConst(0, 64, true), acc)
+			}
+			p := ptrs[argi].(Iface).V.(*Val)
+			*p = fromTerm(acc)
+			argi++
+			count++
+			continue
+		}
+		if c == '\n' {
+			b, ok := readByte()
+			if !ok {
+				continue // newline in the format matches end of input
+			}
+			if isB(b, '\r') {
+				b, ok = readByte()
+				if !ok {
+					continue
+				}
+			}
+			if !isB(b, '\n') {
+				return Tuple{count, errV("newline in format does not match input")}
+			}
+			continue
+		}
+		b, ok := readByte()
+		if !ok {
+			return Tuple{count, ioUnexp}
+		}
+		first = false
+		if !isB(b, c) {
+			return Tuple{count, errV("input does not match format")}
+		}
+	}
+	return Tuple{count, Iface{}}
+}
+
+func (ex *Explorer) pkgGlobal(pkg, name string) *ssa.Global {
+	for _, p := range ex.prog.AllPackages() {
+		if p.Pkg.Path() == pkg {
+			if g, ok := p.Members[name].(*ssa.Global); ok {
+				return g
+			}
+		}
+	}
+	panic("global not found: " + pkg + "." + name)
 }
